@@ -2812,3 +2812,33 @@ package goatlang
 //@   ensures#top result == old(t)
 //@ func ifNud loop 0
 //@   invariant top == old(t) && p != nil
+//@
+//@ -- a call on the right of a declaration / assignment is asked for as many results as there are
+//@ -- targets (the count lives in the call node's third child)
+//@ func assignResize
+//@   property C07 C09
+//@   modifies H$token
+//@   ensures#count old(right.Symbol) == "call" ==> right.Tokens == old(right.Tokens) && right.Tokens[2].Text == fmt.Sprint(len(left.Tokens)) && right.Symbol == "call"
+//@ func getType
+//@   property C07
+//@   trusted
+//@   modifies *
+//@ -- every expression parsed as the right-hand side of a declaration goes through assignResize
+//@ func getDecl
+//@   property C07 C09
+//@   requires p != nil
+//@   modifies *
+//@   ensures#resized calls("(*parser).Expression") == calls("assignResize")
+//@ func getDecl loop 0
+//@   invariant p != nil && decl != nil && left != nil
+//@ func getDecl loop 1
+//@   invariant p != nil && decl != nil && left != nil
+//@ func assignLed
+//@   property C07 C09
+//@   requires p != nil && t != nil
+//@   modifies *
+//@   ensures#resized calls("(*parser).Expression") == calls("assignResize")
+//@ func plural
+//@   property C07
+//@   trusted
+//@   modifies *
